@@ -39,6 +39,14 @@ def gen_message(rng, echo, faulty):
                 texts.append(rng.choice([b':X?', b':BAR?', b':SYST:A?', b':ECHO:U8 1', b'*RST?', b'*IDN', b':SYST']))
                 errs.append('-113')
             elif kind == 'arity':
+                if rng.random() < 0.25:
+                    # all ten declared parameters, correctly typed, plus surplus ones (more than the supported maximum):
+                    # one error (whatever its number), no call; it is a parse-level fault (rest of the message dropped)
+                    many = [d for d in echo.decls if len(d.args) == 10][0]
+                    lits = [G.literal(rng, ty, newline=False)[0] for ty in many.args] + [b'1'] * rng.randint(1, 3)
+                    texts.append(b':MANY ' + b','.join(lits))
+                    errs.append(None)
+                    break
                 texts.append(rng.choice([b':X 1', b':ECHO:U8?', b':ECHO:U8? 1,2', b':TWO 1', b':BOOL', b':SET:STR "a","b"']))
                 errs.append('-115')
             elif kind == 'conv':
